@@ -159,6 +159,27 @@ def helper_level(rep, rng, quick):
             t = run.add(f"qclose {C.qlit(1e-9 * max(1.0, abs(v)) * max(1.0, np.max(np.abs(x))))} "
                         f"(trapz3 opsQ {C.qlist(x)} {C.qlist(x2)} {C.qlist(x3)} {yl}) {C.qlit(v)}")
             todo.append((t, "integrate-3d", kind, {"shape": Y.shape, "impl": v}))
+    # the TRANSLATED source of _integration_weights (Gen/Helpers.v, regenerated on this run) executed in Q on the same grids:
+    # validates the translator; in its own run, because the generated file does not load when the translator rejects the source
+    rung = C.CoqRun("C08", IMPORTS.replace("Tie.C08.", "Gen.Helpers Tie.C08."), shard=1)
+    gtodo = []
+    for t, what, kind, info in todo:
+        if what == "weights" and len(gtodo) < 24:
+            x_, w_ = info["x"], info["impl"]
+            gt = rung.add(f"vclose {C.qlit(1e-12 * max(1.0, float(np.max(np.abs(x_)))))} (gen_trapz_weights opsQ {C.qlist(x_)}) {C.qlist(w_)}")
+            gtodo.append((gt, kind, x_, w_))
+    try:
+        resg = rung.run()
+    except RuntimeError as e:
+        rep.notes.append(("translated _integration_weights could not be evaluated (Gen/Helpers.v does not load): " + str(e))[:300])
+        resg, gtodo = {}, []
+    for gt, kind, x_, w_ in gtodo:
+        rep.case(("translated-weights", kind, x_.tobytes()), nontrivial=len(x_) >= 3, kind="translated-weights",
+                 sample={"what": "translated _integration_weights", "grid": kind, "n": int(len(x_))})
+        if not resg[gt]:
+            rep.disagreements_checked += 1
+            rep.violation("translator check: the Gallina translation of _integration_weights(method='trapz') evaluated in Q differs "
+                          "from the running code on the same grid", {"x": C.hexf(x_), "impl": C.hexf(w_)})
     res = run.run()
     for t, what, kind, info in todo:
         key = (what, kind) + tuple(np.asarray(v).tobytes() for v in info.values() if isinstance(v, np.ndarray))
